@@ -365,6 +365,19 @@ def run(chk: Check) -> None:
     chk.info("table_rows_illegal_in_13_20_reported_only", explored_bad[:20])
 
     plan, explore = export_plan(chk, rng, thorough)
+    if bad_rows:
+        # targeted search: testcases whose plugin metadata names an operator of a broken row, at that opset
+        bad_ops = {r["form"][0] for r in bad_rows}
+        bad_opsets = sorted({r["opset"] for r in bad_rows})
+        cands = [tp for tp in progs.plugin_params()
+                 if any(isinstance(o, dict) and o.get("component") in bad_ops for o in (tp.get("onnx") or []))]
+        extra = []
+        for tp in rng.sample(cands, min(len(cands), 25)):
+            for v in bad_opsets[:3]:
+                extra.append((progs.plugin_desc(tp), progs.plugin_cfg(tp, opset=v)))
+        chk.log(f"{len(bad_rows)} tabulated gate rows are illegal ({sorted(bad_ops)} at {bad_opsets}); "
+                f"targeted search over {len(extra)} exports")
+        plan = extra + plan
     t0 = time.time()
     budget = 100 if not thorough else 1500
     done, lines = [], []
